@@ -50,3 +50,15 @@ package openapi3
 //@   modifies nothing
 //@   ensures result == lookup(content, mime)
 //@   tag C06 C08 C10
+
+// Override lookup by location and name (C07).
+//@ func (Parameters).GetByInAndName
+//@   requires forall k int :: 0 <= k && k < len(parameters) ==> parameters[k] != nil
+//@   modifies nothing
+//@   loop 0 invariant forall j int :: 0 <= j && j < #i ==> !(parameters[j].Value != nil && parameters[j].Value.Name == name && parameters[j].Value.In == in)
+//@   ensures (result != nil) <==> (exists k int :: 0 <= k && k < len(parameters) && parameters[k].Value != nil && parameters[k].Value.Name == name && parameters[k].Value.In == in)
+//@   tag C07
+
+// Per-call objects of this package that are not part of the shared document: their components are
+// outside the "all(openapi3)" frame class.
+//@ class other openapi3.SchemaError openapi3.schemaValidationSettings openapi3.MultiError
